@@ -977,7 +977,8 @@ Definition drop_ref (a : N) (s : st) : list mop * st :=
       match minrc_drop (a_rc x) with
       | Some (v, z) =>
           if z then
-            let x1 := mkActor SZombie (a_strong x) v None (a_logid x) true in
+            (* the cell is gone; in the model its packed word is marked Zombie so that nothing can treat it as Prep / Ready *)
+            let x1 := mkActor SZombie (oz (count_set_state (a_strong x) STATE_ZOMBIE)) v None (a_logid x) true in
             let s1 := emit (upd_actor s a x1) (EModel M_FREE_ACTOR a) in
             let nl := match a_notify x with Some nt => [MRetInvoke nt None] | None => [] end in
             let '(dl, s2) := state_drops a (a_state x) s1 in
